@@ -84,6 +84,9 @@ pub struct Project {
     /// Extra text placed at the top of the manifest (bindings such as
     /// builddir, comments).
     pub preamble: String,
+    /// Split manifest: steps from this index on live in the named file, which
+    /// the main manifest includes at its end.
+    pub fragment: Option<(String, usize)>,
 }
 
 fn esc(path: &str) -> String {
@@ -104,13 +107,40 @@ fn esc_val(v: &str) -> String {
 }
 
 impl Project {
+    /// The whole project as one manifest (ignores `fragment`).
     pub fn manifest_text(&self) -> String {
+        self.render(0, self.steps.len(), true, true, true)
+    }
+
+    /// Text of one file of a (possibly split) manifest.  The fragment holds
+    /// the pools, the user steps and the default statement; the main file the
+    /// preamble, the steps before the split point and the include.
+    pub fn text_of_file(&self, file: &str) -> String {
+        match &self.fragment {
+            Some((name, first)) if name == file => self.render(*first, self.steps.len(), true, true, false),
+            Some((name, first)) => {
+                let mut t = self.render(0, *first, false, false, true);
+                t.push_str(&format!("include {}\n", name));
+                t
+            }
+            None => self.manifest_text(),
+        }
+    }
+
+    fn render(&self, from: usize, to: usize, pools: bool, with_defaults: bool, preamble: bool) -> String {
         let mut t = String::new();
-        t.push_str(&self.preamble);
-        for (name, depth) in &self.pools {
-            t.push_str(&format!("pool {}\n  depth = {}\n", name, depth));
+        if preamble {
+            t.push_str(&self.preamble);
+        }
+        if pools {
+            for (name, depth) in &self.pools {
+                t.push_str(&format!("pool {}\n  depth = {}\n", name, depth));
+            }
         }
         for (i, s) in self.steps.iter().enumerate() {
+            if i < from || i >= to {
+                continue;
+            }
             let rule = if s.phony {
                 "phony".to_string()
             } else {
@@ -165,7 +195,7 @@ impl Project {
             }
             t.push('\n');
         }
-        if !self.defaults.is_empty() {
+        if with_defaults && !self.defaults.is_empty() {
             t.push_str("default");
             for d in &self.defaults {
                 t.push(' ');
